@@ -238,7 +238,8 @@ class Scheduler:
                 self.cv.notify_all()
 
 
-def child_schedule(n: int, segments: List[Tuple[int, int]], battery: List[Tuple[str, Any]], use: Optional[List[int]] = None) -> dict:
+def child_schedule(n: int, segments: List[Tuple[int, int]], battery: List[Tuple[str, Any]], use: Optional[List[int]] = None,
+                   kinds: Optional[List[str]] = None) -> dict:
     """use: indices of battery inputs that every thread also runs through its new converter *inside* the schedule (the
     first structure/unstructure of a class builds per-class functions, and may fill lazily built tables of the package)."""
     t, h, c = pkg()
@@ -275,7 +276,7 @@ def child_schedule(n: int, segments: List[Tuple[int, int]], battery: List[Tuple[
         tls.using = False
         sys.settrace(tracer)
         try:
-            conv = c.get_converter()
+            conv = make_converter(c, kinds[tid % len(kinds)]) if kinds else c.get_converter()
             if use:
                 # first use inside the schedule: yield points are the lines of every module of the package
                 tls.using, tls.count, tls.cap = True, 0, USE_CAP
@@ -352,10 +353,87 @@ def in_child(fn, *args, timeout: float = CHILD_TIMEOUT) -> Optional[dict]:
     return res["ok"]
 
 
+# every way of obtaining a converter that the property quantifies over: fresh, or built on a user-supplied cattrs converter -
+# of any configuration and any provenance (a plain one, one that already carries the hooks, a copy of a hooked one)
+GROUP = {
+    "fresh": "DV_TRUE", "Converter(dv=True)": "DV_TRUE", "GenConverter()": "DV_TRUE", "Converter()": "DV_TRUE",
+    "rehook": "DV_TRUE", "copy()": "DV_TRUE",
+    "Converter(dv=False)": "DV_FALSE", "copy(dv=False)": "DV_FALSE", "copy-of-user(dv=False)": "DV_FALSE",
+    "custom-forbid-extra": "FORBID", "copy(forbid-extra)": "FORBID",
+    "custom-int-hook": "CUSTOM",
+}
+
+
+def flag_kinds(c) -> List[str]:
+    """options of get_converter() itself, as far as its signature shows them (boolean keyword parameters): a converter made
+    with a non-default option is a customised one - and must not alter the others either."""
+    import inspect
+    out = []
+    try:
+        params = list(inspect.signature(c.get_converter).parameters.values())[1:]
+    except (TypeError, ValueError):
+        return out
+    for p_ in params:
+        if isinstance(p_.default, bool):
+            out.append(f"flag:{p_.name}={not p_.default}")
+    return out
+
+
+def make_converter(c, kind: str):
+    import cattrs
+    if kind == "fresh":
+        return c.get_converter()
+    if kind == "Converter(dv=True)":
+        return c.get_converter(cattrs.Converter(detailed_validation=True))
+    if kind == "Converter(dv=False)":
+        return c.get_converter(cattrs.Converter(detailed_validation=False))
+    if kind == "GenConverter()":
+        return c.get_converter(cattrs.GenConverter())
+    if kind == "Converter()":
+        return c.get_converter(cattrs.Converter())
+    if kind == "rehook":
+        return c.get_converter(c.get_converter())
+    if kind == "copy()":
+        return c.get_converter(c.get_converter().copy())
+    if kind == "copy(dv=False)":
+        return c.get_converter(c.get_converter().copy(detailed_validation=False))
+    if kind == "copy-of-user(dv=False)":
+        return c.get_converter(c.get_converter(cattrs.Converter()).copy(detailed_validation=False))
+    if kind == "custom-forbid-extra":
+        return c.get_converter(cattrs.Converter(forbid_extra_keys=True))   # a user's stricter configuration
+    if kind == "copy(forbid-extra)":
+        return c.get_converter(c.get_converter().copy(forbid_extra_keys=True))
+    if kind == "custom-int-hook":
+        base = cattrs.Converter()
+        base.register_structure_hook(int, lambda v, _: int(v) + 1000)   # a user's own customisation
+        return c.get_converter(base)
+    if kind.startswith("flag:"):
+        name, val = kind[5:].split("=")
+        return c.get_converter(**{name: val == "True"})
+    raise ValueError(kind)
+
+
+def outcome_detailed(conv, t, name: str, j: Any) -> List[Any]:
+    """as outcome(), plus the class of the exception: converters of one configuration raise alike"""
+    T = getattr(t, name)
+    try:
+        obj = conv.structure(j, T)
+    except Exception as e:
+        return ["raised", type(e).__name__]
+    try:
+        return ["ok", json.dumps(json.loads(json.dumps(conv.unstructure(obj, T))), sort_keys=True)]
+    except Exception as e:
+        return ["unstructure-raised", type(e).__name__]
+
+
 def child_reference(battery: List[Tuple[str, Any]]) -> dict:
     t, h, c = pkg()
+    import cattrs
     conv = c.get_converter()
-    return {"outcomes": [outcome(conv, t, name, j) for name, j in battery]}
+    refs = {"DV_TRUE": conv, "DV_FALSE": c.get_converter(cattrs.Converter(detailed_validation=False)),
+            "FORBID": c.get_converter(cattrs.Converter(forbid_extra_keys=True))}
+    return {"outcomes": [outcome(conv, t, name, j) for name, j in battery],
+            "by_group": {g: [outcome_detailed(cv, t, name, j) for name, j in battery] for g, cv in refs.items()}}
 
 
 def _work_sched(args) -> dict:
@@ -380,14 +458,21 @@ def _work_sched(args) -> dict:
     targeted = st.tuples(st.integers(2, 3), st.integers(0, 2), st.one_of(st.integers(1, 60), st.integers(1, 2400)), st.lists(seg, max_size=3), use1).map(
         lambda x: (x[0], [(x[1], x[2], 1), ((x[1] + 1) % x[0], 10**6)] + [tuple(s) for s in x[3]], x[4]))
     strat = st.one_of(strat, strat, targeted)
+    # the threads need not ask for the same kind of converter
+    thread_kinds = PLAIN_KINDS + flag_kinds(c) * 3 + ["custom-forbid-extra"]
+    kinds_s = st.one_of(st.just([]), st.lists(st.sampled_from(thread_kinds), min_size=4, max_size=4))
+    strat = st.tuples(strat, kinds_s).map(lambda x: tuple(x[0]) + (x[1],))
 
     def one(x):
-        n, segments, use = (tuple(x) + ([],))[:3]
-        res = in_child(child_schedule, n, segments, battery, use)
+        n, segments, use, kinds = (tuple(x) + ([], []))[:4]
+        res = in_child(child_schedule, n, segments, battery, use, kinds or None)
         stats["cases"] += 1
         if use:
             stats["cases_with_first_use_in_threads"] += 1
-        case = {"threads": n, "segments": [list(s) for s in segments], "use": list(use)}
+        if kinds and len(set(kinds[:n])) > 1:
+            stats["cases_with_mixed_kinds"] += 1
+        case = {"threads": n, "segments": [list(s) for s in segments], "use": list(use), "kinds": list(kinds)}
+        judged = lambda tid: not kinds or not customised(kinds[int(tid) % len(kinds)])   # noqa: E731
         if res is None:
             stats["inconclusive_timeouts"] += 1
             return
@@ -403,12 +488,14 @@ def _work_sched(args) -> dict:
             norm = re.sub(r"\d+", "N", msg)[:80]
             ctx.finding(("first-use-raises", "get_converter", norm), f"thread {tid} of {n}: {msg}; schedule {case['segments']}", dict(case, error=msg, tb=tb))
         for tid, seen in res.get("in_thread", {}).items():
+            if not judged(tid):
+                continue
             for bi, got in seen:
                 if got != ref["outcomes"][bi]:
                     ctx.finding(("converter-differs", battery[bi][0], "during-concurrent-first-use"),
                                 f"thread {tid}, inside the schedule: {battery[bi][0]} {battery[bi][1]!r} -> {got} but sequential reference {ref['outcomes'][bi]}", case)
         for tid, outs in res["outcomes"].items():
-            if outs != ref["outcomes"]:
+            if judged(tid) and outs != ref["outcomes"]:
                 k = next(i for i, (a, b) in enumerate(zip(outs, ref["outcomes"])) if a != b)
                 ctx.finding(("converter-differs", battery[k][0], "after-concurrent-first-use"),
                             f"thread {tid}: {battery[k][0]} {battery[k][1]!r} -> {outs[k]} but sequential reference {ref['outcomes'][k]}", case)
@@ -418,7 +505,7 @@ def _work_sched(args) -> dict:
         for name in sorted(os.listdir(d)) if os.path.isdir(d) else []:
             with open(os.path.join(d, name)) as f:
                 cs = json.load(f)["case"]
-            one((cs["threads"], [tuple(s) for s in cs["segments"]], cs.get("use", [])))
+            one((cs["threads"], [tuple(s) for s in cs["segments"]], cs.get("use", []), cs.get("kinds", [])))
             stats["regress_schedules"] += 1
     mini(strat, n_cases, (seed, "C19", "sched", shard), one)
     return {"violations": list(ctx.violations.values()), "known_hits": ctx.known_hits, "known_examples": ctx.known_examples,
@@ -426,12 +513,16 @@ def _work_sched(args) -> dict:
 
 
 # ---- (B) creation histories ---------------------------------------------------------------------------
-CONFIGS = ["fresh", "Converter(dv=True)", "Converter(dv=False)", "GenConverter()", "Converter()", "custom-int-hook", "custom-forbid-extra"]
-CUSTOMISED = ("custom-int-hook", "custom-forbid-extra")
+CONFIGS = list(GROUP)
+CUSTOMISED = tuple(k for k, g in GROUP.items() if g in ("CUSTOM", "FORBID"))
 PLAIN_KINDS = [k for k in CONFIGS if k not in CUSTOMISED]
 
 
-def child_history(ops: List[Any], fixed: List[Tuple[str, Any]], reference: List[Any], wide: Optional[list] = None) -> dict:
+def customised(kind: str) -> bool:
+    return kind in CUSTOMISED or kind.startswith("flag:")
+
+
+def child_history(ops: List[Any], fixed: List[Tuple[str, Any]], reference: List[Any], wide: Optional[list] = None, by_group: Optional[dict] = None) -> dict:
     """executes a creation history in a pristine process; invariants are evaluated after every step."""
     t, h, c = pkg()
     import cattrs
@@ -443,23 +534,7 @@ def child_history(ops: List[Any], fixed: List[Tuple[str, Any]], reference: List[
     evaluations = 0
 
     def make(kind: str):
-        if kind == "fresh":
-            return c.get_converter()
-        if kind == "Converter(dv=True)":
-            return c.get_converter(cattrs.Converter(detailed_validation=True))
-        if kind == "Converter(dv=False)":
-            return c.get_converter(cattrs.Converter(detailed_validation=False))
-        if kind == "GenConverter()":
-            return c.get_converter(cattrs.GenConverter())
-        if kind == "Converter()":
-            return c.get_converter(cattrs.Converter())
-        if kind == "custom-forbid-extra":
-            return c.get_converter(cattrs.Converter(forbid_extra_keys=True))   # a user's stricter configuration
-        if kind == "custom-int-hook":
-            base = cattrs.Converter()
-            base.register_structure_hook(int, lambda v, _: int(v) + 1000)   # a user's own customisation
-            return c.get_converter(base)
-        raise ValueError(kind)
+        return make_converter(c, kind)
 
     pending_wide = False
     for step, op in enumerate(ops):
@@ -469,7 +544,7 @@ def child_history(ops: List[Any], fixed: List[Tuple[str, Any]], reference: List[
             except Exception as e:
                 findings.append([["create-raises", "get_converter", op[1]], f"{type(e).__name__}: {e}", step])
                 continue
-            if pending_wide and wide and op[1] not in CUSTOMISED:
+            if pending_wide and wide and not customised(op[1]):
                 # the first ordinary converter after a cut-short creation: one small value of every structure
                 pending_wide = False
                 wb, wref = wide
@@ -507,7 +582,16 @@ def child_history(ops: List[Any], fixed: List[Tuple[str, Any]], reference: List[
         for idx, (label, conv) in enumerate(convs):
             outs = [outcome(conv, t, name, j) for name, j in battery]
             evaluations += len(outs)
-            if label not in CUSTOMISED:
+            grp = GROUP.get(label)
+            if by_group and grp in by_group:
+                # converters of one configuration behave alike whatever their provenance: same result, same class of exception
+                det = [outcome_detailed(conv, t, name, j) for name, j in battery]
+                gref = by_group[grp][: len(det)]
+                if det != gref:
+                    k = next(i for i, (a, b) in enumerate(zip(det, gref)) if a != b)
+                    findings.append([["converter-differs-within-configuration", battery[k][0], label],
+                                     f"{battery[k][0]} {json.dumps(battery[k][1])[:150]}: converter #{idx} ({label}) gives {det[k]}, a directly built converter of that configuration {gref[k]}", step])
+            if not customised(label):
                 ref = reference[: len(outs)]
                 if outs != ref:
                     k = next(i for i, (a, b) in enumerate(zip(outs, ref)) if a != b)
@@ -656,7 +740,7 @@ def _work_hist(args) -> dict:
                 self.ops.append(["create", "fresh"])   # what a cut-short creation leaves behind shows in the next converter
             battery = fixed + [(o[1], o[2]) for o in self.ops if o[0] == "add_input"]
             ref = in_child(child_reference, battery)
-            res = in_child(child_history, self.ops, fixed, ref["outcomes"], wide) if ref is not None else None
+            res = in_child(child_history, self.ops, fixed, ref["outcomes"], wide, ref.get("by_group")) if ref is not None else None
             stats["histories"] += 1
             if res is None:
                 stats["inconclusive_timeouts"] += 1
@@ -680,7 +764,7 @@ def _work_hist(args) -> dict:
             for k2 in (k1, user_kinds[(user_kinds.index(k1) + 1) % len(user_kinds)]):
                 ops = [["create", k1], ["use", 0, 3], ["drop", 0], ["create", k2], ["use", 0, 5], ["drop", 0], ["create", "fresh"], ["create", k1], ["drop", 1], ["create", k2]]
                 ref = in_child(child_reference, fixed)
-                res = in_child(child_history, ops, fixed, ref["outcomes"], wide) if ref is not None else None
+                res = in_child(child_history, ops, fixed, ref["outcomes"], wide, ref.get("by_group")) if ref is not None else None
                 stats["scripted_histories"] += 1
                 if res is None:
                     stats["inconclusive_timeouts"] += 1
@@ -781,7 +865,7 @@ def _work_fault(args) -> dict:
     def one(x):
         mode, n, kind, second = x
         ops = [["fail-create", mode, n, kind], ["create", second], ["create", "fresh"]]
-        res = in_child(child_history, ops, fixed, ref["outcomes"], wide)
+        res = in_child(child_history, ops, fixed, ref["outcomes"], wide, ref.get("by_group"))
         stats["fault_histories"] += 1
         if res is None:
             stats["inconclusive_timeouts"] += 1
@@ -933,7 +1017,7 @@ def replay(ctx: Ctx, path: str) -> int:
         fixed = fixed_battery()
         battery = fixed + [(o[1], o[2]) for o in case["ops"] if o[0] == "add_input"]
         ref = in_child(child_reference, battery)
-        res = in_child(child_history, case["ops"], fixed, ref["outcomes"]) if ref else None
+        res = in_child(child_history, case["ops"], fixed, ref["outcomes"], None, ref.get("by_group")) if ref else None
         if res is None:
             print("[C19] replay: child timed out (inconclusive)")
             return 2
@@ -947,7 +1031,7 @@ def replay(ctx: Ctx, path: str) -> int:
         return ctx.finish()
     t, h, c = pkg()
     battery = fixed_battery()
-    res = in_child(child_schedule, case["threads"], [tuple(s) for s in case["segments"]], battery, case.get("use", []))
+    res = in_child(child_schedule, case["threads"], [tuple(s) for s in case["segments"]], battery, case.get("use", []), case.get("kinds") or None)
     if res is None:
         print("[C19] replay: child timed out (inconclusive)")
         return 2
